@@ -99,10 +99,11 @@ CLAIMED = {
               "body's list for each of the 30 types."),
         design_ref="DESIGN.md §4 C13"),
     "C16": dict(
-        technique="source-level symbolic execution of parse_block4_fields / normalize_field_tag on structured block-4 texts with symbolic field contents (z3) + Kani/CBMC on the tag normalisation / base-tag helpers (all short strings) and, in the thorough tier, the consumption tracker and parse_block4_fields on tiny texts",
+        technique="source-level symbolic execution of parse_block4_fields / normalize_field_tag on structured block-4 texts with symbolic field contents and of FieldConsumptionTracker on a symbolic set of marks (z3) + Kani/CBMC on the tag normalisation / base-tag helpers (all short strings)",
         text=("Five block-4 templates with symbolic contents: every field appears exactly once under its tag with its content and the "
-              "stamps increase; normalize_field_tag and extract_base_tag decided for all inputs up to 4-5 bytes against the documented rule; "
-              "consumption tracker only in the thorough tier; sequence splitting is outside the claim."),
+              "stamps increase; the tracker, after any subset of three occurrences was marked in any order, hands out the first unmarked "
+              "occurrence; normalize_field_tag and extract_base_tag decided for all inputs up to 4-5 bytes against the documented rule. "
+              "The constrained sequential lookups and sequence splitting are outside the claim."),
         design_ref="DESIGN.md §4 C16"),
     "C17": dict(
         technique="source-level symbolic execution of the classification predicates and the plugin's method selection on symbolic field-72 lines (z3 strings) and finite MUR/119 candidate sets; replayed natively",
